@@ -169,7 +169,7 @@ func runGCScan(f *vevid.Flags, rep *vevid.Report) {
 	if f.Thorough() {
 		maxN = 14
 	}
-	rep.Rule = fmt.Sprintf("scripted exhaustive product: message size profile {half,big,tiny,mixed,exact} x appends 5..%d x acknowledged position of group a (every position -1..n-1) x second group {none, every position <= a's} x {sync+gc once, twice}; one or two groups consume everything, acknowledge, FanOutQueue.Sync + Queue.GC run, every message above the queue ack is read back byte for byte, then close / reopen / read back again; 4 index entries per index page, 64-byte data pages. distinct = cases", maxN)
+	rep.Rule = fmt.Sprintf("scripted exhaustive product: message size profile {half,big,tiny,mixed,exact} x appends 5..%d x acknowledged position of group a (every position -1..n-1) x second group {none, every position <= a's} x {sync+gc once, twice}; one or two groups consume everything, acknowledge, FanOutQueue.Sync + Queue.GC run, every message above the queue ack is read back byte for byte, then close / reopen / read back again; 4 index entries per index page, 64-byte data pages; plus long logs whose data or index page ids cross 9->10 and 99->100 (profile,appends: big 11,12,13,102; tiny 41,45,49,406; half 23), one group, acknowledged positions: all (short) / around the boundary (long). distinct = cases", maxN)
 	rep.Bounds["max_appends"] = maxN
 	var idx int64
 	no := 0
@@ -196,6 +196,48 @@ func runGCScan(f *vevid.Flags, rep *vevid.Report) {
 						runGCCase(rep, f, gcCase{Part: "gcscan", Profile: profile, N: n, AckA: a, AckB: b, Twice: twice}, no)
 					}
 				}
+			}
+		}
+	}
+	// long logs: page ids cross a decimal digit boundary (9 -> 10, 99 -> 100) in the data pages (profile big: one
+	// message per data page) or in the index pages (profile tiny: 4 entries per index page); one group, every
+	// acknowledged position for the shorter logs, the positions around the boundary for the longer ones.
+	type long struct {
+		profile string
+		n       int
+	}
+	longs := []long{{"big", 11}, {"big", 12}, {"big", 13}, {"tiny", 41}, {"tiny", 45}, {"tiny", 49}, {"half", 23}, {"big", 102}, {"tiny", 406}}
+	rep.Bounds["long_logs"] = len(longs)
+	for _, l := range longs {
+		var acks []int64
+		if l.n < 60 {
+			for a := int64(-1); a < int64(l.n); a++ {
+				acks = append(acks, a)
+			}
+		} else {
+			acks = []int64{-1}
+			per := int64(1)
+			if l.profile == "tiny" {
+				per = 4
+			}
+			for a := int64(l.n) - 1 - 5*per; a < int64(l.n); a++ {
+				acks = append(acks, a)
+			}
+		}
+		for _, a := range acks {
+			for _, twice := range []bool{false, true} {
+				idx++
+				if !f.Mine(idx) {
+					continue
+				}
+				if f.Expired() {
+					rep.Cap("deadline")
+					return
+				}
+				no++
+				rep.Evaluations++
+				rep.DistinctNontrivial++
+				runGCCase(rep, f, gcCase{Part: "gcscan", Profile: l.profile, N: l.n, AckA: a, AckB: -2, Twice: twice}, no)
 			}
 		}
 	}
